@@ -4,6 +4,7 @@ import PlzVerif.Model.RuleProto
 import PlzVerif.Model.Env
 import PlzVerif.Model.Sha1
 import PlzVerif.Generated.C08
+import PlzVerif.Generated.C10
 /-!
 Line protocol for C10 (see harness/rulehash/c10.go): target tokens as for C08 plus `c.*` (configuration), `d.*`
 (derived strings) and `caller=` / `callerA=` / `callerB=`.
@@ -87,7 +88,7 @@ def wellFormedOp (o : Op) : Bool :=
   upperNodup (o.t.namedTools.map (·.1)) && upperNodup (o.t.namedSecrets.map (·.1)) &&
   !o.t.isFilegroup && o.t.label.subrepo.isEmpty
 
-def envOf (o : Op) (c : Caller) (t : Target) : List Bytes := toSlice (buildEnvironment o.cfg t o.d c)
+def envOf (o : Op) (c : Caller) (t : Target) : List Bytes := toSlice (buildEnvironment Generated.C10.userEnvSorted o.cfg t o.d c)
 
 def perms {α : Type} : List α → List (List α)
   | [] => [[]]
